@@ -173,7 +173,7 @@ def run(ctx, rep):
                        how="reads the single filtered, enumerated stream",
                        witness=None if good else "consumer reads %s" % [pt.describe(i) for i in ids - allowed][:2], nontrivial=True)
         # any other tokenisation inside the region (a consumer tokenising on its own)
-        if f is not dec and f not in gfuncs:
+        if f is not dec and f not in gfuncs and not _only_called_from(ctx, f, gfuncs):
             for s in ctx.cg.sites(f):
                 for g in s.callees:
                     if g.name == "split_selfies":
@@ -213,6 +213,12 @@ def run(ctx, rep):
     from rules.shared import check_fresh_return
     check_fresh_return(ctx, Effects(ctx), rep, ctx.fn("selfies.utils.encoding_utils.selfies_to_encoding"), "N3", "selfies_to_encoding")
     rep.analysed.update({"derivation": D.qual, "generator": sorted(g.qual for g in gfuncs), "consumers": n_cons})
+
+
+def _only_called_from(ctx, g, funcs):
+    """g is a module-level function all of whose callers (in the package) are in funcs"""
+    callers = [f for f in ctx.db.funcs.values() if f is not g and any(g in s.callees for s in ctx.cg.sites(f))]
+    return g.cls is None and bool(callers) and all(c in funcs for c in callers)
 
 
 def check_uses(ctx, rep, f, name, role, gfuncs, seen):
@@ -271,6 +277,9 @@ def check_uses(ctx, rep, f, name, role, gfuncs, seen):
                     elif role == "tok-input":
                         if g.name == "split_selfies":
                             pass
+                        elif _only_called_from(ctx, g, gfuncs):
+                            # a private helper of the filtering generator (its result goes back into the generator's loop)
+                            check_uses(ctx, rep, g, pn, "tok-input", gfuncs, seen)
                         else:
                             ok, why = False, "generator input is passed to %s instead of the tokenizer" % g.name
                     else:  # raw / msg
@@ -281,6 +290,8 @@ def check_uses(ctx, rep, f, name, role, gfuncs, seen):
             ok = True   # interpolated into message text
         elif isinstance(p, ast.Assign) and role == "tok-input" and p.value is n:
             ok = True   # alias that is iterated below (list form)
+        elif isinstance(p, ast.Return) and role == "tok-input" and f not in gfuncs and _only_called_from(ctx, f, gfuncs):
+            ok = True   # handed back to the filtering generator (list form)
         elif isinstance(p, ast.Compare) and role in ("raw", "msg", "fragment"):
             why = "raw input is compared / inspected directly"
         else:
